@@ -9,7 +9,7 @@
     [gV ... k J I] the v-point between rho-cells (J, I) and (J+1, I) at (I, J + 1/2);
     [mt mask J I] the integer land mask of rho-cell (J, I). *)
 From Coq Require Import ZArith QArith List Bool.
-From Ladim Require Import Base.Num Model.Interp Proofs.InterpProofs.
+From Ladim Require Import Base.Num Model.VGrid Model.Interp Proofs.InterpProofs Proofs.VerticalComposeProofs.
 Import ListNotations.
 Open Scope Q_scope.
 
@@ -55,6 +55,25 @@ Theorem C02_T2_trilinear_exact_on_linear : forall F x y k a al0 al1 be ga,
             r == a * (al0 + be * x + ga * y) + (1 - a) * (al1 + be * x + ga * y).
 Proof. exact trilinear_exact_on_linear. Qed.
 Print Assumptions C02_T2_trilinear_exact_on_linear.
+
+(** T5 (vertical clause: "linear in depth between the two s-levels that bracket the particle in its own
+    grid cell, held constant above the top and below the bottom level", exact "in depth over a flat bottom"):
+    the level search of C12 composed with the kernel — for ANY particle depth Zp (above the surface, inside,
+    below the bottom level) a field equal to c0 + c1*z_level + be*i + ga*j at the nodes is sampled as
+    c0 + c1*clamp(-Zp, z_bottom_level, z_top_level) + be*x + ga*y *)
+Theorem C02_T5_vertical_clamped_linear : forall (F : arr3) (zr : list Q) (Zp x y c0 c1 be ga : Q),
+  increasing zr = true -> (2 <= Z.of_nat (length zr))%Z ->
+  let KA := z2s_kernel zr Zp in
+  let i := qtrunc x in let j := qtrunc y in
+  (forall dj di, (dj = 0 \/ dj = 1)%Z -> (di = 0 \/ di = 1)%Z ->
+     reads_as F (fst KA - 1) (j + dj) (i + di)
+              (c0 + c1 * nthQ zr (fst KA - 1) + be * inject_Z (i + di) + ga * inject_Z (j + dj)) /\
+     reads_as F (fst KA) (j + dj) (i + di)
+              (c0 + c1 * nthQ zr (fst KA) + be * inject_Z (i + di) + ga * inject_Z (j + dj))) ->
+  exists r, fst (trilinear F x y (fst KA) (snd KA)) = Some r /\
+            r == c0 + c1 * clamped_depth zr Zp + be * x + ga * y.
+Proof. exact vertical_clamped_linear. Qed.
+Print Assumptions C02_T5_vertical_clamped_linear.
 
 (** T2, staggered, subgrid-local coordinates: the u-node with local index (j, i) sits at (i - 1/2, j), the
     v-node at (i, j - 1/2); fields linear at their own points are reproduced by [sample3DUV] at (x, y). *)
